@@ -389,12 +389,13 @@ func reuseExperiment(name, pkg string, mk func() interface{}, up bool, b1, b2 []
 		name = typeName(used)
 	}
 	var err1, err2, errF error
-	if sim.Guard("panic", func() { err1 = callUnmarshal(used, up, append([]byte(nil), b1...)) }) || err1 != nil {
+	if quiet(func() { err1 = callUnmarshal(used, up, append([]byte(nil), b1...)) }) || err1 != nil {
 		return // the first input was not a valid message for this type
 	}
 	fresh := mk()
 	in2 := append([]byte(nil), b2...)
-	if sim.Guard("panic", func() { errF = callUnmarshal(fresh, up, in2) }) {
+	regsBefore := regSeqGet()
+	if quiet(func() { errF = callUnmarshal(fresh, up, in2) }) {
 		return
 	}
 	if errF == nil {
@@ -402,14 +403,20 @@ func reuseExperiment(name, pkg string, mk func() interface{}, up bool, b1, b2 []
 		// buffer it was decoded from (every decodable type, not only frames)
 		s0 := sim.DeepSig(fresh)
 		if !bytes.Equal(in2, b2) {
-			simrt.Report("i4.decoder-wrote-input:"+typeNameOr(name, fresh), fmt.Sprintf("decoding %x modified the input to %x", b2, in2))
+			functional("decoder-wrote-input") // (the statement's "never modify memory outside" names the encryption, validate and marshal operations)
 		}
 		ownerWriteFill(in2, 0xe7)
 		if s1 := sim.DeepSig(fresh); s1 != s0 {
 			simrt.Report("alias.decode:"+typeNameOr(name, fresh), fmt.Sprintf("a %s decoded from %x changed when the caller overwrote that buffer: %s -> %s", typeNameOr(name, fresh), b2, s0, s1))
 		}
 	}
-	if sim.Guard("panic", func() { err2 = callUnmarshal(used, up, append([]byte(nil), b2...)) }) {
+	if quiet(func() { err2 = callUnmarshal(used, up, append([]byte(nil), b2...)) }) {
+		return
+	}
+	if regSeqGet() != regsBefore {
+		// an operator registered a command between the two decodes: a decoder
+		// that consults the registry may legitimately read the bytes differently
+		simrt.Count(cFunctional)
 		return
 	}
 	simrt.Trace(evReuse, uint64(len(b1)), uint64(len(b2)))
